@@ -32,6 +32,8 @@ pub struct Obs {
     pub ns: Vec<(String, String)>,
     pub users: Vec<(String, String)>,
     pub listing: Vec<(String, String, String)>,
+    /// MCP servers and tool definitions as served by the public queries (canonical JSON)
+    pub mcp: Vec<(String, String)>,
 }
 
 pub async fn observe(n: &NodeH, tag: &str) -> anyhow::Result<Obs> {
@@ -57,7 +59,8 @@ pub async fn observe(n: &NodeH, tag: &str) -> anyhow::Result<Obs> {
     users.sort();
     let (_, mut listing) = cfg_list(n, None, 0, 10_000).await?;
     listing.sort();
-    Ok(Obs { records, cfg, hist, ns, users, listing })
+    let mcp = mcp_obs(n).await?;
+    Ok(Obs { records, cfg, hist, ns, users, listing, mcp })
 }
 
 pub fn obs_diff(a: &Obs, b: &Obs) -> String {
@@ -80,6 +83,25 @@ pub fn obs_diff(a: &Obs, b: &Obs) -> String {
     }
     if a.users != b.users {
         out.push(format!("users {:?} vs {:?}", a.users, b.users));
+    }
+    if a.mcp != b.mcp {
+        for (k, v) in &a.mcp {
+            match b.mcp.iter().find(|x| &x.0 == k) {
+                None => out.push(format!("mcp {}: served vs not served", k)),
+                Some(x) if &x.1 != v => {
+                    let (a, b): (Vec<char>, Vec<char>) = (v.chars().collect(), x.1.chars().collect());
+                    let p = a.iter().zip(b.iter()).position(|(x, y)| x != y).unwrap_or(a.len().min(b.len()));
+                    let ctx = |c: &Vec<char>| c[p.saturating_sub(70)..(p + 50).min(c.len())].iter().collect::<String>();
+                    out.push(format!("mcp {}: {} vs {} (first difference at {}: ...{}... vs ...{}...)", k, trunc(v), trunc(&x.1), p, ctx(&a), ctx(&b)))
+                }
+                _ => {}
+            }
+        }
+        for (k, _) in &b.mcp {
+            if !a.mcp.iter().any(|x| &x.0 == k) {
+                out.push(format!("mcp {}: not served vs served", k));
+            }
+        }
     }
     if a.listing != b.listing {
         out.push(format!("listing {:?} vs {:?}", a.listing, b.listing));
@@ -499,6 +521,22 @@ impl Check for C01 {
                 steps.push(gen_wstep(&mut rng, 1, &w));
             }
         }
+        // MCP definitions (a third of the runs): tool definitions that move on while servers still refer to older versions
+        let mut rm = Rng::derive(seed, "C01.mcp", 0);
+        if rm.chance(0.35) {
+            let k = rm.range(3, 12);
+            for _ in 0..k {
+                let at = rm.below(steps.len() as u64 + 1) as usize;
+                steps.insert(at, gen_mcp_step(&mut rm, 1));
+            }
+            // and more than one compaction + restart cycle after them
+            for _ in 0..rm.range(0, 2) {
+                for _ in 0..cfg.node.snapshot_log_size + 2 {
+                    steps.push(gen_wstep(&mut rm, 1, &w));
+                }
+                steps.push(WStep::Restart { node: 1 });
+            }
+        }
         steps.push(WStep::Restart { node: 1 });
         let paced = rng.chance(0.5);
         json!({"check": "C01", "seed": seed, "cfg": cfg, "steps": steps, "paced": paced})
@@ -654,6 +692,15 @@ impl Check for C07 {
         let w = [40u32, 10, 8, 4, 3, 10, 4, 8, 4];
         for _ in 0..n {
             steps.push(gen_wstep(&mut rng, 1, &w));
+        }
+        // MCP definitions in a third of the sequences (tool definitions that move on while servers refer to older versions,
+        // removals that are refused while a definition is in use)
+        let mut rm = Rng::derive(seed, "C07.mcp", 0);
+        if rm.chance(0.35) {
+            for _ in 0..rm.range(3, 12) {
+                let at = rm.below(steps.len() as u64 + 1) as usize;
+                steps.insert(at, gen_mcp_step(&mut rm, 1));
+            }
         }
         json!({"check": "C07", "seed": seed, "cfg": cfg, "steps": steps})
     }
@@ -2107,6 +2154,13 @@ impl Check for C08 {
             steps.insert(0, WStep::CfgSet { node: 1, t, g, d, size: 10, same: false, typ: 1, desc: 1 });
             let at = (cfg.before + 1 + rr.below(5) as usize).min(steps.len());
             steps.insert(at, WStep::CfgDel { node: 1, t, g, d });
+        }
+        let mut rm = Rng::derive(seed, "C08.mcp", 0);
+        if rm.chance(0.3) {
+            for _ in 0..rm.range(2, 8) {
+                let at = rm.below(steps.len() as u64 + 1) as usize;
+                steps.insert(at, gen_mcp_step(&mut rm, 1));
+            }
         }
         json!({"check": "C08", "seed": seed, "cfg": cfg, "steps": steps})
     }
